@@ -111,11 +111,18 @@ Record series := {
   s_data : data; s_down : list dsample; s_cb : cbmode;
   s_range : option (N * N) }.                     (* TimeRange *)
 
+(* the loop of new_with_resamplers over the cache levels. After the fix a create that fails half way leaves nothing
+   behind: the files of the levels made so far are removed again (here: each level removes its own two files when a
+   later level fails; the Rust removes them in one loop - the resulting directory is the same) *)
+Definition remove_pair (base:fname) : M unit :=
+  exec remove_file (base ++ ext_data) in remove_file (base ++ ext_index).
 Fixpoint create_caches (name:fname) (p:nat) (source:data) (cb:cbmode) (Bs:list N) : M (list dsample) :=
   match Bs with
   | [] => ret []
   | B :: t => let* ds := ds_create name B p source cb in
-              let* rest := create_caches name p source cb t in ret (ds :: rest)
+              let* rest := mcatch (create_caches name p source cb t)
+                                  (fun e => exec remove_pair (cache_name name B) in fail e) in
+              ret (ds :: rest)
   end.
 Fixpoint open_caches (name:fname) (p:nat) (source:data) (cb:cbmode) (Bs:list N) : M (list dsample) :=
   match Bs with
@@ -129,7 +136,8 @@ Definition series_new (name:fname) (p:N) (user_header:list byte) (caches:list N)
   let header := params_to_text BSgen.Consts.version p ++ user_header in
   let pn := N.to_nat p in
   let* d := data_new name pn header in
-  let* down := create_caches name pn d cb caches in
+  let* down := mcatch (create_caches name pn d cb caches)
+                      (fun e => exec remove_pair name in fail e) in     (* the fix: the series' own files go as well *)
   ret {| s_data := d; s_down := down; s_cb := cb; s_range := None |}.
 
 (* ByteSeries::open_existing_with_resampler; returns the series and the user header in the file *)
